@@ -7,6 +7,7 @@ import (
 
 	txfile "github.com/elastic/go-txfile"
 
+	"verifharness/engine"
 	"verifharness/model"
 )
 
@@ -148,4 +149,34 @@ func truncateK1(rep *Report, m *model.Client, r *rand.Rand, n int) {
 			rep.violate(Violation{Kind: "correspondence", Sig: "check-truncate", Detail: fmt.Sprintf("checkTruncate: implementation %q, model %q (%v)", impl, mod, replay), Replay: replay})
 		}
 	}
+}
+
+// k1Model: the model client of the running campaign, for correspondence checks inside helpers that have no client
+// of their own (nil: the check is skipped)
+var k1Model *model.Client
+
+// rollbackTruncK1 compares what every Rollback / Close of a write transaction of an engine did to the file size
+// with the Coq model rollback_truncate (theorems rollback_truncate_spec, rollback_keeps_committed_extent) on the
+// end markers of the restored allocator state. Truncations whose size query / truncate call was made to fail
+// are left out.
+func rollbackTruncK1(e *engine.Engine) (fails []string, n int) {
+	if k1Model == nil || e == nil {
+		return nil, 0
+	}
+	for _, rt := range e.RollbackTruncs {
+		if rt.Failed {
+			continue
+		}
+		n++
+		mod := k1Model.Ask(fmt.Sprintf("rollbacktruncate %d %d %d %d %d", rt.MetaEnd, rt.DataEnd, rt.SzBefore, rt.PageSize, rt.MaxPages))
+		impl := "none"
+		if rt.NewSize >= 0 {
+			impl = fmt.Sprint(rt.NewSize)
+		}
+		if impl != mod {
+			fails = append(fails, fmt.Sprintf("rollback-truncate-k1: a rollback on a file of %d bytes (restored end markers: meta %d, data %d; %d pages of %d bytes max) truncated it to %s, model: %s",
+				rt.SzBefore, rt.MetaEnd, rt.DataEnd, rt.MaxPages, rt.PageSize, impl, mod))
+		}
+	}
+	return fails, n
 }
